@@ -107,6 +107,19 @@ class Oracle:
         parts = []
         if isinstance(p, B.Simple):
             parts.append(("proper", self.proper_text(p)))
+            # the documented extra prompt: a pure $(…) argument of a handler CLI that the handler itself (rules apart)
+            # does not approve is asked about ("cmdsub injection risk") - a part of its own, independent of the rules
+            from dippy.cli import HandlerContext, get_handler
+            from dippy.core.allowlists import SIMPLE_SAFE
+
+            words = [w.render() for w in p.argv]
+            h = get_handler(words[0]) if words else None
+            if h is not None and words[0] not in SIMPLE_SAFE and any(len(w.segs) == 1 and w.segs[0].kind == "cmdsub" for w in p.argv[1:]):
+                try:
+                    if h.classify(HandlerContext(words, self.cwd)).action != "allow":
+                        parts.append(("inject", "@ask"))
+                except Exception:  # noqa: BLE001
+                    pass
         for c in p.children():
             parts.append(("child", self.text(c)))
         for pos, sp in p.subprograms():
@@ -124,7 +137,7 @@ class Oracle:
         parts = self.direct_parts(p)
         worst = "allow"
         for label, t in parts:
-            a, r = self.verdict(t)
+            a, r = ("ask", "injection prompt") if label == "inject" else self.verdict(t)
             if r.startswith("parse error"):
                 return "skip"
             if RANK[a] > RANK[worst]:
@@ -132,7 +145,7 @@ class Oracle:
         if act != worst:
             return {
                 "input": {"command": text, "config": self.cfg_text, "cwd": str(self.cwd)},
-                "observed": {"verdict": act, "reason": reason, "parts": [(l, t, self.verdict(t)[0]) for l, t in parts]},
+                "observed": {"verdict": act, "reason": reason, "parts": [(l, t, "ask" if l == "inject" else self.verdict(t)[0]) for l, t in parts]},
                 "required": f"verdict == most restrictive of the parts == {worst}",
                 "oracle": "max-of-parts",
                 "node_kind": p.kind,
@@ -205,7 +218,7 @@ def search(ctx):
         o.walk(p, self_out, stats)
         o.wrap_checks(p, r, self_out, stats)
         if i < 2:
-            samples.append({"program": t[:300], "verdict": o.verdict(t)[0], "parts": [(l, x[:80], o.verdict(x)[0]) for l, x in o.direct_parts(p)][:6]})
+            samples.append({"program": t[:300], "verdict": o.verdict(t)[0], "parts": [(l, x[:80], "ask" if l == "inject" else o.verdict(x)[0]) for l, x in o.direct_parts(p)][:6]})
         if self_out:
             # keep the smallest failing input of this program
             self_out.sort(key=lambda v: len(v["input"]["command"]))
